@@ -62,3 +62,5 @@ def run(ctx):
     from ..engines import equivrules as QE
     QE.k16_connect_cycles(ctx)
     ctx.floor("K16", 3)
+    R.r10_one_searcher_per_database(ctx)
+    ctx.floor("R10", 1)
